@@ -507,7 +507,7 @@ func (ex *Exec) execExprStmt(p *Path, st *ast.ExprStmt) []outcome {
 		if id, ok := call.Fun.(*ast.Ident); ok && id.Name == "panic" {
 			if _, isBuiltin := ex.info.Uses[id].(*types.Builtin); isBuiltin {
 				if ex.safety {
-					ex.addObl(p, ex.funcKey+"#nopanic:panic@"+ex.w.pos(call.Pos()), "safety", "explicit panic is unreachable", "false", call.Pos(), "")
+					ex.addObl(p, ex.funcKey+"#nopanic:panic@"+ex.siteLabel(call.Pos()), "safety", "explicit panic is unreachable", "false", call.Pos(), "")
 				}
 				return []outcome{{p: p, kind: oPanic}}
 			}
@@ -621,7 +621,7 @@ func (ex *Exec) assignTo(p *Path, lhs ast.Expr, v Value) {
 			nv := ex.convert(p, v, bt.Elem(), l.Pos())
 			if ex.safety {
 				_, _, _, isnil := ex.c.mapParts(base.Ty)
-				ex.addObl(p, ex.funcKey+"#nopanic:nilmap@"+ex.w.pos(l.Pos()), "safety", "assignment to entry in nil map", not(app(isnil, base.T)), l.Pos(), "")
+				ex.addObl(p, ex.funcKey+"#nopanic:nilmap@"+ex.siteLabel(l.Pos()), "safety", "assignment to entry in nil map", not(app(isnil, base.T)), l.Pos(), "")
 			}
 			newMap := app(mk, "(store "+app(dom, base.T)+" "+k.T+" true)", "(store "+app(val, base.T)+" "+k.T+" "+nv.T+")", "false")
 			ex.assignTo(p, l.X, Value{newMap, base.Ty})
@@ -1093,6 +1093,12 @@ func (ex *Exec) havocVars(p *Path, vars []types.Object) {
 		v := Value{ex.c.Fresh("h:"+o.Name(), ex.c.SortOf(ty)), ty}
 		p.vars[o] = v
 		p.Assume(ex.c.typeInvariant(v))
+		if _, isMap := ty.Underlying().(*types.Map); isMap && ok {
+			// entries are added or removed inside loops, the map itself is not replaced by nil
+			_, _, _, isnil := ex.c.mapParts(ty)
+			p.Assume(implies(app(isnil, v.T), app(isnil, cur.T)))
+			ex.c.Trust("maps modified in loops keep their nil-ness (no loop of the code under contract assigns nil to a map variable)")
+		}
 	}
 }
 
@@ -1364,18 +1370,35 @@ func (ex *Exec) execFor(p *Path, st *ast.ForStmt) []outcome {
 // ---------------------------------------------------------------------------------------
 // safety obligations
 
+// siteLabel names a program point by its line offset inside the enclosing function (stable under edits elsewhere).
+func (ex *Exec) siteLabel(pos token.Pos) string {
+	fi := ex.fi
+	prefix := ""
+	for i := len(ex.inlineStack) - 1; i >= 0; i-- {
+		if f := ex.w.Funcs[ex.inlineStack[i]]; f != nil {
+			fi = f
+			prefix = f.Obj.Name() + ":"
+			break
+		}
+	}
+	if fi == nil || !pos.IsValid() {
+		return "?"
+	}
+	return fmt.Sprintf("%sL%d", prefix, ex.w.Fset.Position(pos).Line-ex.w.Fset.Position(fi.Decl.Pos()).Line)
+}
+
 func (ex *Exec) boundsObl(p *Path, idx, length string, pos token.Pos) {
-	if !ex.safety {
+	if !ex.safety || ex.inContract() {
 		return
 	}
-	ex.addObl(p, ex.funcKey+"#nopanic:index@"+ex.w.pos(pos), "safety", "index in range", "(and (>= "+idx+" 0) (< "+idx+" "+length+"))", pos, "")
+	ex.addObl(p, ex.funcKey+"#nopanic:index@"+ex.siteLabel(pos), "safety", "index in range", "(and (>= "+idx+" 0) (< "+idx+" "+length+"))", pos, "")
 }
 
 func (ex *Exec) nilObl(p *Path, v Value, pos token.Pos) {
-	if !ex.safety {
+	if !ex.safety || ex.inContract() {
 		return
 	}
-	ex.addObl(p, ex.funcKey+"#nopanic:nil@"+ex.w.pos(pos), "safety", "nil dereference", not(ex.isNilTerm(v)), pos, "")
+	ex.addObl(p, ex.funcKey+"#nopanic:nil@"+ex.siteLabel(pos), "safety", "nil dereference", not(ex.isNilTerm(v)), pos, "")
 }
 
 func (ex *Exec) isNilTerm(v Value) string {
